@@ -237,6 +237,18 @@ def check(ctx):
         ctx.ob("R11.4", f"{fnk}|timeout-dispatch", bool(tests) and len(lst) == 2, f"{pb.f['file']}:{pb.f['line']}",
                f"{len(lst)} spawned variants selected by a test on self.futures_timeout ({len(tests)} test blocks); required: a zero-timeout and a timeout-enforcing variant")
         if not tests or len(lst) != 2: continue
+        # ... and the test is on the Duration itself (== ZERO, its secs / nanos fields, is_zero(), as_nanos()): a unit-truncating view (`as_millis() == 0`,
+        # `as_secs()`, a division) sends every non-zero timeout below the unit to the variant that enforces none
+        LOSSY = ("as_millis", "as_secs", "as_micros", "as_secs_f32", "as_secs_f64", "subsec_millis", "subsec_micros", "div_duration_f32", "div_duration_f64")
+        def lossy(e, depth=0):
+            if not isinstance(e, tuple) or depth > 30: return False
+            if e and e[0] == "call" and e[1].split("::")[-1] in LOSSY: return True
+            if e and e[0] == "bin" and str(e[1]).rstrip("!~") in ("Div", "Rem", "Shr"): return True
+            return any(lossy(x, depth + 1) for x in e if isinstance(x, tuple))
+        bad_t = [b for b in tests if lossy(pd.expr(pb.term(b)[1]))]
+        ctx.ob("R11.4", f"{fnk}|timeout-dispatch-tests-the-duration-itself", not bad_t, pb.loc(bad_t[0]) if bad_t else f"{pb.f['file']}:{pb.f['line']}",
+               "the zero / non-zero dispatch compares the configured Duration exactly" if not bad_t else
+               f"the dispatch tests `{show(pd.expr(pb.term(bad_t[0])[1]))[:80]}`: a truncated view of the timeout -- sub-unit timeouts select the non-enforcing variant")
         entry = min(tests, key=lambda b: len(pb.dom[b]))
         nonzero_first = pb.term(entry)[3]          # `otherwise` edge of the first test: some field is non-zero
         for (co, sb) in lst:
